@@ -39,10 +39,10 @@ P = {
  "C09": ("Certificate theory at exact rationals for all dimensions: C09_weak_duality, C09_legal_optimal_is_optimal (+ tolerance version), C09_standard_form_equiv (lower-bound shift and upper-bound slack rows), C09_optimal, C09_phase1_infeasible, C09_infeasible_vacuous (no return site carries LpStatus::Infeasible), dual/warm-start form: partial theorem + counterexamples. Tie: for every LP the harness prints data (bit patterns), status, x, objective and the returned basis; the Lean driver recomputes x_B and y from the basis by exact elimination and evaluates the verified checker; an independent exact vertex-enumeration oracle decides feasibility/optimality of the implementation's answer.",
          "Lean 4 proof (LP duality / certificate checking over Rat) with per-run certificate validation and exact-arithmetic oracle",
          "The pivoting rules and LU factorisation are not modelled; legality of each terminal state is validated per run, not proved for all runs."),
- "C06": ("Theorems over exact rationals for the float/int linear propagators and float bound setters (Model/FloatCore.lean, generic in the number type so that the very same definitions run on f64 in the driver): C06_int_vars_exact (+ _view): integer variables in mixed rows keep exact integer domains; C06_float_kind_step_kept; C06_float_checking_tol: at a fixpoint without events every row holds up to |c_i|*max(3 step, 1e-5|bound|) + sum |c_j| width_j; kernel-checked counterexamples for the recorded findings (row over integer variables only is unchecked, the tolerance is necessary). Tie: every float primitive, ctx.try_set_min/max float arms and FloatLin prune compared bit-for-bit; API-level witness stream (oracle on returned solutions: bounds, integrality, row residuals, var-var comparisons not ignored).",
+ "C06": ("Theorems over exact rationals for the float/int linear propagators and float bound setters (Model/FloatCore.lean, generic in the number type so that the very same definitions run on f64 in the driver): C06_int_vars_exact (+ _view): integer variables in mixed rows keep exact integer domains; C06_float_kind_step_kept; C06_float_checking_tol: at a fixpoint without events every row holds up to |c_i|*max(3 step, 1e-5|bound|) + sum |c_j| width_j; kernel-checked counterexamples for the recorded findings (row over integer variables only is unchecked, the tolerance is necessary). Search level (Model/FloatEngine.lean: propagation loop over the float propagators, the float branching rule x <= mid / x >= mid, first-leaf search): fpropagate_fixpoint, C06_solve_within_tolerance (every returned assignment lies in the declared bounds, final widths below 1.5 step, integer variables integral, every FloatLinLe row within the tolerance). Tie: every float primitive, ctx.try_set_min/max float arms, FloatLin prune and whole fl.solve runs (verdict, propagation count, node count, value bit patterns) compared bit-for-bit; API-level witness stream (oracle on returned solutions: bounds, integrality, row residuals, var-var comparisons not ignored).",
          "Lean 4 proof over exact rationals (same generic definitions run on f64) with bit-exact differential correspondence",
          "IEEE rounding is outside the theorems (trusted: correspondence on bit patterns); float views and non-linear float constraints are covered by the oracle stream only; the var-var comparison clause is false of the code (known finding float-varvar-cmp-ignored)."),
- "C07": ("Theorems: C07_trysetmin/max_keeps_margin, _keeps_grid, C07_floatlin_le_sound_margin (a witness with margin >= max|c_i| step_i survives every FloatLinLe prune), C07_floatlin_eq_sound_exact (exact equality at grid points, integer variables included), C07_floatlin_sound_margin and C07_propagation_never_fails (any sequence of rows never fails while the witness exists); counterexample: zero margin is not enough. Tie: as C06, plus the API-level stream builds models AROUND a witness and requires solve() != NoSolution.",
+ "C07": ("Theorems: C07_trysetmin/max_keeps_margin, _keeps_grid, C07_floatlin_le_sound_margin (a witness with margin >= max|c_i| step_i survives every FloatLinLe prune), C07_floatlin_eq_sound_exact (exact equality at grid points, integer variables included), C07_floatlin_sound_margin and C07_propagation_never_fails (any sequence of rows never fails while the witness exists); counterexample: zero margin is not enough. Search level: C07_solve_not_infeasible (a witness on the step grid that every propagator keeps is never lost by the bisection: the engine does not answer NoSolution), C07_branching_gap_counterexample (off the grid the point mid is lost by both branches), C07_bisection_terminates_partial (grid stores: depth 2*size+1 suffices) with C07_solve_diverges_counterexample (in general the bisection does not terminate: finding float-split-half-step-no-progress). Tie: as C06, plus the API-level stream builds models AROUND a witness and requires solve() != NoSolution.",
          "Lean 4 proof over exact rationals (witness-preservation invariant through any propagation sequence) with bit-exact differential correspondence",
          "FloatLinNe and the reified float helpers are not covered by the theorems; IEEE rounding trusted via correspondence."),
  "C08": ("Theorems at exact rationals (Model/Opt.lean: the router's decision logic, bound extraction, create_unconstrained_solution, the construction of the root LP from the posted linear rows, apply_lp_solution): C08_fast_path_sound_partial (under the decidable guard fastGuard the fast-path answer is feasible and optimal; the full statement is false: counterexamples per defect class, each replayed on the code), C08_root_lp_is_relaxation (+ C08_root_lp_objective_bound via C09's weak duality), C08_lp_bound_transfer_sound (transferring only the objective bound of a legal optimal certificate loses no solution) with C08_lp_vertex_transfer_counterexample (what the code does: every variable fixed to the vertex), C08_error_only_if_infeasible_partial. Tie: router decision, entry path, fast-path point, registered metadata and the root LP problem (hook H9: columns, A, b, bounds, c as bit patterns) compared exactly, plus the store after apply_lp_solution; oracle: exact vertex enumeration + enumeration of small integer domains on models built through Model.",
